@@ -89,6 +89,46 @@ fn emit_raw(body: &str) {
     });
 }
 
+thread_local! {
+    static ENV_FILE: RefCell<Option<Option<std::fs::File>>> = RefCell::new(None);
+}
+
+/// If `INCR_VERIF_TRACE_DIR` is set, append the engine snapshot (one JSON line, tagged with the
+/// thread name, i.e. the test name under libtest) to a per-thread file in that directory.
+/// Called at the end of every stabilise: this is how the repository's own tests are recorded
+/// without editing them.
+pub(crate) fn env_snapshot(state: &State) {
+    use std::io::Write as _;
+    ENV_FILE.with(|f| {
+        let mut f = f.borrow_mut();
+        if f.is_none() {
+            let file = std::env::var_os("INCR_VERIF_TRACE_DIR").and_then(|dir| {
+                let name = format!(
+                    "{}-{:?}.ndjson",
+                    std::process::id(),
+                    std::thread::current().id()
+                )
+                .replace(['(', ')'], "_");
+                std::fs::OpenOptions::new()
+                    .create(true)
+                    .append(true)
+                    .open(std::path::Path::new(&dir).join(name))
+                    .ok()
+            });
+            *f = Some(file);
+        }
+        if let Some(Some(file)) = f.as_mut() {
+            let thread = std::thread::current();
+            let line = format!(
+                "{{\"test\":{},\"snap\":{}}}\n",
+                json_str(thread.name().unwrap_or("?")),
+                snapshot(state)
+            );
+            let _ = file.write_all(line.as_bytes());
+        }
+    });
+}
+
 /// `ev(state, "name", &[("k", v), ...])` -- node ids are translated to registry positions by the
 /// caller through `nix`.
 pub(crate) fn ev(name: &str, fields: &[(&str, i64)]) {
